@@ -229,3 +229,371 @@ theorem inv_init (tm : Timing) (d : Nat) (ign : Bool) : Inv tm (init d ign) := b
   simp [Inv, init]
 
 end PlzVerif.Exec
+
+namespace PlzVerif.Exec
+
+/-! ### `runScript` is an execution of the transition system
+
+The run used by the correspondence harness only ever performs `Step`s: scripted exits are `ProcStep.exit`s,
+supervisor moves are `Step.sup`, and a jump of the clock to the next scheduled instant is a sequence of
+`tick`s during which the supervisor has nothing due. -/
+
+theorem Reach.trans {tm : Timing} {a b c : St} (h1 : Reach tm a b) (h2 : Reach tm b c) : Reach tm a c := by
+  induction h2 with
+  | refl => exact h1
+  | step _ hs ih => exact Reach.step ih hs
+
+theorem Reach.one {tm : Timing} {a b : St} (h : Step tm a b) : Reach tm a b := Reach.step (Reach.refl a) h
+
+/-- When the supervisor's timer fires, if nothing arrives on the channel first. -/
+def due (tm : Timing) (s : St) : Option Nat :=
+  match s.phase with
+  | .running => some s.deadline
+  | .termSent t => some (t + tm.termWait)
+  | .killSent t => some (t + tm.killWait)
+  | .returned _ _ => none
+
+theorem sup_none_iff {tm : Timing} {s : St} (hp : ∀ b t, s.phase ≠ .returned b t) :
+    sup tm s = none ↔ (s.chReady = false ∧ ∀ d, due tm s = some d → s.now < d) := by
+  unfold sup due
+  cases hph : s.phase with
+  | running => by_cases hc : s.chReady = true <;> simp [hc] <;> omega
+  | termSent t => by_cases hc : s.chReady = true <;> simp [hc] <;> omega
+  | killSent t => by_cases hc : s.chReady = true <;> simp [hc] <;> omega
+  | returned b t => exact absurd hph (hp b t)
+
+/-- Moving only the clock, below the timer, keeps the supervisor blocked. -/
+theorem sup_none_at {tm : Timing} {s : St} (h : sup tm s = none) (hp : ∀ b t, s.phase ≠ .returned b t)
+    (n : Nat) (hn : ∀ d, due tm s = some d → n < d) : sup tm { s with now := n } = none := by
+  have h' := (sup_none_iff hp).mp h
+  apply (sup_none_iff (s := { s with now := n }) hp).mpr
+  exact ⟨h'.1, hn⟩
+
+/-- The clock can be advanced tick by tick up to any instant not beyond the timer. -/
+theorem reach_ticks {tm : Timing} {s : St} (h : sup tm s = none) (hp : ∀ b t, s.phase ≠ .returned b t) :
+    ∀ (k : Nat), (∀ d, due tm s = some d → s.now + k ≤ d) → Reach tm s { s with now := s.now + k } := by
+  intro k
+  induction k with
+  | zero => intro _; exact Reach.refl s
+  | succ k ih =>
+    intro hd
+    have r1 := ih (fun d hdd => by have := hd d hdd; omega)
+    have hn : sup tm { s with now := s.now + k } = none :=
+      sup_none_at h hp _ (fun d hdd => by have := hd d hdd; omega)
+    have := Step.tick hn
+    exact Reach.step r1 this
+
+theorem foldl_min_le (c : Nat) : ∀ (cs : List Nat) (x : Nat), x = c ∨ x ∈ cs → cs.foldl min c ≤ x := by
+  intro cs
+  induction cs generalizing c with
+  | nil => intro x hx; rcases hx with rfl | h; exact Nat.le_refl _; cases h
+  | cons a as ih =>
+    intro x hx
+    simp only [List.foldl_cons]
+    rcases hx with rfl | h
+    · exact Nat.le_trans (ih (min x a) (min x a) (Or.inl rfl)) (Nat.min_le_left _ _)
+    · rcases List.mem_cons.mp h with rfl | h
+      · exact Nat.le_trans (ih (min c x) (min c x) (Or.inl rfl)) (Nat.min_le_right _ _)
+      · exact ih (min c a) x (Or.inr h)
+
+theorem foldl_min_mem (c : Nat) : ∀ (cs : List Nat), cs.foldl min c = c ∨ cs.foldl min c ∈ cs := by
+  intro cs
+  induction cs generalizing c with
+  | nil => left; rfl
+  | cons a as ih =>
+    simp only [List.foldl_cons]
+    rcases ih (min c a) with h | h
+    · rw [h]
+      by_cases hca : c ≤ a
+      · left; exact Nat.min_eq_left hca
+      · right; rw [Nat.min_eq_right (by omega)]; simp
+    · right; exact List.mem_cons_of_mem _ h
+
+theorem minAbove_bounds (cands : List Nat) (now : Nat) :
+    now < minAbove cands now ∧ ∀ d ∈ cands, now < d → minAbove cands now ≤ d := by
+  unfold minAbove
+  cases hf : cands.filter (· > now) with
+  | nil =>
+    refine ⟨by simp, fun d hd hlt => ?_⟩
+    have : d ∈ cands.filter (· > now) := by simp [List.mem_filter, hd, hlt]
+    rw [hf] at this; cases this
+  | cons c cs =>
+    simp only
+    have hall : ∀ x ∈ c :: cs, now < x := by
+      intro x hx
+      have hx' : x ∈ cands.filter (· > now) := by rw [hf]; exact hx
+      have := (List.mem_filter.mp hx').2
+      simpa using this
+    constructor
+    · rcases foldl_min_mem c cs with h | h
+      · rw [h]; exact hall c (by simp)
+      · exact hall _ (List.mem_cons_of_mem _ h)
+    · intro d hd hlt
+      have : d ∈ c :: cs := by rw [← hf]; simp [List.mem_filter, hd, hlt]
+      exact foldl_min_le c cs d (by simpa [List.mem_cons] using this)
+
+theorem due_mem_candidates {tm : Timing} {sc : Script} {s : St} {d : Nat} (hd : due tm s = some d) :
+    d ∈ candidates tm sc s := by
+  unfold due at hd
+  unfold candidates
+  cases hph : s.phase with
+  | running => simp [hph] at hd; simp [hd]
+  | termSent t => simp [hph] at hd; simp [hd]
+  | killSent t => simp [hph] at hd; simp [hd]
+  | returned b t => simp [hph] at hd
+
+/-- The next scheduled instant is later than now and not beyond the supervisor's timer. -/
+theorem nextTime_bounds {tm : Timing} {sc : Script} {s : St} :
+    s.now < nextTime tm sc s ∧ ∀ d, due tm s = some d → s.now < d → nextTime tm sc s ≤ d := by
+  unfold nextTime
+  have := minAbove_bounds (candidates tm sc s) s.now
+  exact ⟨this.1, fun d hd hlt => this.2 d (due_mem_candidates hd) hlt⟩
+
+/-- Zero or one supervisor step. -/
+theorem reach_sup_opt (tm : Timing) (s : St) : Reach tm s (supOpt tm s) := by
+  unfold supOpt
+  cases h : sup tm s with
+  | none => exact Reach.refl s
+  | some s' => exact Reach.one (Step.sup h)
+
+/-- Marking a set of the `others` dead (only those still alive change) is a sequence of exits. -/
+theorem reach_exits {tm : Timing} (s : St) (f : Proc → Bool) :
+    Reach tm s { s with others := s.others.map fun p => if f p then { p with alive := false } else p } := by
+  suffices h : ∀ (pre post : List Proc), Reach tm { s with others := pre ++ post }
+      { s with others := pre ++ post.map fun p => if f p then { p with alive := false } else p } by
+    simpa using h [] s.others
+  intro pre post
+  induction post generalizing pre with
+  | nil => simpa using Reach.refl _
+  | cons p ps ih =>
+    simp only [List.map_cons]
+    by_cases hfp : f p = true
+    · by_cases hal : p.alive = true
+      · have st : Step tm { s with others := pre ++ p :: ps } { s with others := pre ++ { p with alive := false } :: ps } :=
+          Step.other pre ps p _ rfl (ProcStep.exit p hal)
+        have r := ih (pre ++ [{ p with alive := false }])
+        simp only [List.append_assoc, List.singleton_append] at r
+        simp only [hfp, ↓reduceIte]
+        exact Reach.trans (Reach.one st) r
+      · have e : ({ p with alive := false } : Proc) = p := by
+          cases p; simp_all
+        have r := ih (pre ++ [p])
+        simp only [List.append_assoc, List.singleton_append] at r
+        simp only [hfp, ↓reduceIte, e]
+        exact r
+    · have r := ih (pre ++ [p])
+      simp only [List.append_assoc, List.singleton_append] at r
+      simp only [hfp, Bool.false_eq_true, ↓reduceIte]
+      exact r
+
+
+/-- The scripted exits of the background children, as a sequence of `exit` steps. -/
+theorem reach_zip_exits {tm : Timing} (s : St) (now : Nat) :
+    ∀ (post : List Proc) (cs : List Child) (pre : List Proc), post.length = cs.length →
+      Reach tm { s with others := pre ++ post }
+        { s with others := pre ++ (post.zip cs).map fun (p, c) => if now ≥ c.exitAt then { p with alive := false } else p } := by
+  intro post
+  induction post with
+  | nil => intro cs pre _; simpa using Reach.refl _
+  | cons p ps ih =>
+    intro cs pre hl
+    cases cs with
+    | nil => simp at hl
+    | cons c cs =>
+      simp only [List.zip_cons_cons, List.map_cons]
+      have hl' : ps.length = cs.length := by simpa using hl
+      by_cases hx : now ≥ c.exitAt
+      · simp only [hx, ↓reduceIte]
+        by_cases hal : p.alive = true
+        · have st : Step tm { s with others := pre ++ p :: ps } { s with others := pre ++ { p with alive := false } :: ps } :=
+            Step.other pre ps p _ rfl (ProcStep.exit p hal)
+          have r := ih cs (pre ++ [{ p with alive := false }]) hl'
+          simp only [List.append_assoc, List.singleton_append] at r
+          exact Reach.trans (Reach.one st) r
+        · have e : ({ p with alive := false } : Proc) = p := by cases p; simp_all
+          have r := ih cs (pre ++ [p]) hl'
+          simp only [List.append_assoc, List.singleton_append] at r
+          rw [e]; exact r
+      · simp only [hx, ↓reduceIte]
+        have r := ih cs (pre ++ [p]) hl'
+        simp only [List.append_assoc, List.singleton_append] at r
+        exact r
+
+theorem reach_applyExits {tm : Timing} (sc : Script) (s : St) (hl : s.others.length = sc.children.length) :
+    Reach tm s (applyExits sc s) ∧ (applyExits sc s).others.length = sc.children.length := by
+  unfold applyExits
+  constructor
+  · -- the leader first, then the children
+    have r1 : Reach tm s { s with leader := if s.now ≥ sc.leaderExitAt then { s.leader with alive := false } else s.leader } := by
+      by_cases hx : s.now ≥ sc.leaderExitAt
+      · simp only [hx, ↓reduceIte]
+        by_cases hal : s.leader.alive = true
+        · exact Reach.one (Step.leader (ProcStep.exit s.leader hal))
+        · have e : ({ s.leader with alive := false } : Proc) = s.leader := by cases h : s.leader; simp_all
+          rw [e]; exact Reach.refl s
+      · simp only [hx, ↓reduceIte]; exact Reach.refl s
+    have r2 := reach_zip_exits (tm := tm)
+      { s with leader := if s.now ≥ sc.leaderExitAt then { s.leader with alive := false } else s.leader } s.now
+      s.others sc.children [] hl
+    simp only [List.nil_append] at r2
+    exact Reach.trans r1 r2
+  · simp [hl]
+
+/-- Phases only move forward. -/
+def rank : Phase → Nat
+  | .running => 0 | .termSent _ => 1 | .killSent _ => 2 | .returned _ _ => 3
+
+theorem sup_rank {tm : Timing} {s s' : St} (h : sup tm s = some s') :
+    rank s.phase < rank s'.phase ∧ s'.others.length = s.others.length := by
+  unfold sup at h
+  cases hph : s.phase with
+  | running =>
+    simp only [hph] at h
+    split at h
+    · cases h; simp [rank]
+    · split at h
+      · cases h; simp [rank, St.signal]
+      · cases h
+  | termSent t =>
+    simp only [hph] at h
+    split at h
+    · cases h; simp [rank, St.signal]
+    · split at h
+      · cases h; simp [rank, St.signal]
+      · cases h
+  | killSent t =>
+    simp only [hph] at h
+    split at h
+    · cases h; simp [rank]
+    · split at h
+      · cases h; simp [rank]
+      · cases h
+  | returned b t => simp [hph] at h
+
+theorem supOpt_cases (tm : Timing) (s : St) :
+    (sup tm s = none ∧ supOpt tm s = s) ∨ (∃ s', sup tm s = some s' ∧ supOpt tm s = s') := by
+  unfold supOpt
+  cases h : sup tm s with
+  | none => left; exact ⟨rfl, rfl⟩
+  | some s' => right; exact ⟨s', rfl, rfl⟩
+
+theorem rank_le_three (p : Phase) : rank p ≤ 3 := by cases p <;> simp [rank]
+
+theorem rank_three {p : Phase} (h : 3 ≤ rank p) : ∃ b t, p = .returned b t := by
+  cases p with
+  | returned b t => exact ⟨b, t, rfl⟩
+  | running => simp [rank] at h
+  | termSent t => simp [rank] at h
+  | killSent t => simp [rank] at h
+
+/-- Up to three supervisor steps: a reachable state in which the supervisor has returned or is blocked. -/
+theorem reach_sup3 (tm : Timing) (s : St) :
+    Reach tm s (sup3 tm s) ∧ (sup3 tm s).others.length = s.others.length ∧
+      ((∃ b t, (sup3 tm s).phase = .returned b t) ∨ sup tm (sup3 tm s) = none) := by
+  unfold sup3
+  have r1 := reach_sup_opt tm s
+  have r2 := reach_sup_opt tm (supOpt tm s)
+  have r3 := reach_sup_opt tm (supOpt tm (supOpt tm s))
+  refine ⟨Reach.trans (Reach.trans r1 r2) r3, ?_, ?_⟩
+  · rcases supOpt_cases tm s with ⟨_, e1⟩ | ⟨a, h1, e1⟩ <;> rw [e1]
+    · rcases supOpt_cases tm s with ⟨_, e1⟩ | ⟨a, h1, e1⟩ <;> rw [e1]
+      · rcases supOpt_cases tm s with ⟨_, e1⟩ | ⟨a, h1, e1⟩ <;> rw [e1]
+        exact (sup_rank h1).2
+      · rcases supOpt_cases tm a with ⟨_, e2⟩ | ⟨b, h2, e2⟩ <;> rw [e2]
+        · exact (sup_rank h1).2
+        · rw [(sup_rank h2).2]; exact (sup_rank h1).2
+    · rcases supOpt_cases tm a with ⟨_, e2⟩ | ⟨b, h2, e2⟩ <;> rw [e2]
+      · rcases supOpt_cases tm a with ⟨_, e3⟩ | ⟨c, h3, e3⟩ <;> rw [e3]
+        · exact (sup_rank h1).2
+        · rw [(sup_rank h3).2]; exact (sup_rank h1).2
+      · rcases supOpt_cases tm b with ⟨_, e3⟩ | ⟨c, h3, e3⟩ <;> rw [e3]
+        · rw [(sup_rank h2).2]; exact (sup_rank h1).2
+        · rw [(sup_rank h3).2, (sup_rank h2).2]; exact (sup_rank h1).2
+  · rcases supOpt_cases tm s with ⟨n1, e1⟩ | ⟨a, h1, e1⟩ <;> rw [e1]
+    · rw [e1, e1]; right; exact n1
+    · rcases supOpt_cases tm a with ⟨n2, e2⟩ | ⟨b, h2, e2⟩ <;> rw [e2]
+      · rw [e2]; right; exact n2
+      · rcases supOpt_cases tm b with ⟨n3, e3⟩ | ⟨c, h3, e3⟩ <;> rw [e3]
+        · right; exact n3
+        · left
+          have k1 := (sup_rank h1).1
+          have k2 := (sup_rank h2).1
+          have k3 := (sup_rank h3).1
+          exact rank_three (by omega)
+
+/-- **The scripted run is an execution**: every state `runScript` passes through is reachable by `Step`s, so
+    the theorems about reachable states apply to what the correspondence harness compares with the code. -/
+theorem runScript_reach (tm : Timing) (sc : Script) : ∀ (fuel : Nat) (s : St), s.others.length = sc.children.length →
+    Reach tm s (runScript tm sc fuel s) := by
+  intro fuel
+  induction fuel with
+  | zero => intro s _; exact Reach.refl s
+  | succ fuel ih =>
+    intro s hl
+    obtain ⟨ra, hla⟩ := reach_applyExits (tm := tm) sc s hl
+    obtain ⟨r3, hl3, hdone⟩ := reach_sup3 tm (applyExits sc s)
+    simp only [runScript]
+    generalize hs3 : sup3 tm (applyExits sc s) = s3 at r3 hl3 hdone ⊢
+    have r03 : Reach tm s s3 := Reach.trans ra r3
+    by_cases hret : s3.phase.isReturned = true
+    · simpa [hret] using r03
+    · have hnr : ∀ b t, s3.phase ≠ .returned b t := by
+        intro b t h; apply hret; rw [h]; rfl
+      simp only [hret, Bool.false_eq_true, ↓reduceIte]
+      have hsup : sup tm s3 = none := by
+        rcases hdone with ⟨b, t, h⟩ | h
+        · exact absurd h (hnr b t)
+        · exact h
+      have hb := nextTime_bounds (tm := tm) (sc := sc) (s := s3)
+      have hd := (sup_none_iff hnr).mp hsup
+      have rt := reach_ticks hsup hnr (nextTime tm sc s3 - s3.now) (fun d hdd => by
+        have := hb.2 d hdd (hd.2 d hdd); omega)
+      have e : s3.now + (nextTime tm sc s3 - s3.now) = nextTime tm sc s3 := by have := hb.1; omega
+      rw [e] at rt
+      exact Reach.trans (Reach.trans r03 rt) (ih _ (by simpa using hl3.trans hla))
+
+
+/-- The start state of a script is itself reachable from the state right after `cmd.Start()`: the leader forks
+    the children one by one, each gives up the pipes / starts ignoring SIGTERM as scripted, and finally the
+    leader sets its own disposition. -/
+theorem initScript_reach (tm : Timing) (d : Nat) (sc : Script) : Reach tm (init d false) (initScript d sc) := by
+  have mk : ∀ (cs : List Child) (pre : List Proc),
+      Reach tm { init d false with others := pre }
+        { init d false with others := pre ++ cs.map fun c => ⟨true, true, c.holdsPipe, c.ignoresTerm⟩ } := by
+    intro cs
+    induction cs with
+    | nil => intro pre; simpa using Reach.refl _
+    | cons c cs ih =>
+      intro pre
+      let s0 : St := { init d false with others := pre }
+      let child : Proc := ⟨true, true, true, false⟩
+      have f1 : Step tm s0 { s0 with others := s0.others ++ [child] } :=
+        Step.fork child (by simp [s0, init, St.procs, child]) rfl
+      -- adjust the pipe
+      have f2 : Reach tm { s0 with others := pre ++ [child] } { s0 with others := pre ++ [⟨true, true, c.holdsPipe, false⟩] } := by
+        cases hh : c.holdsPipe with
+        | true => exact Reach.refl _
+        | false =>
+          exact Reach.one (Step.other pre [] child { child with holdsPipe := false } rfl (ProcStep.closePipe child rfl))
+      have f3 : Reach tm { s0 with others := pre ++ [⟨true, true, c.holdsPipe, false⟩] }
+          { s0 with others := pre ++ [⟨true, true, c.holdsPipe, c.ignoresTerm⟩] } := by
+        cases hh : c.ignoresTerm with
+        | false => exact Reach.refl _
+        | true =>
+          exact Reach.one (Step.other pre [] ⟨true, true, c.holdsPipe, false⟩
+            { (⟨true, true, c.holdsPipe, false⟩ : Proc) with ignoresTerm := true } rfl (ProcStep.ignoreTerm _ rfl))
+      have r := ih (pre ++ [⟨true, true, c.holdsPipe, c.ignoresTerm⟩])
+      simp only [List.map_cons, List.append_assoc, List.singleton_append] at r ⊢
+      exact Reach.trans (Reach.trans (Reach.trans (Reach.one f1) f2) f3) r
+  have r1 := mk sc.children []
+  simp only [List.nil_append] at r1
+  have e0 : ({ init d false with others := [] } : St) = init d false := rfl
+  rw [e0] at r1
+  unfold initScript
+  cases hi : sc.leaderIgnoresTerm with
+  | false => exact r1
+  | true =>
+    refine Reach.trans r1 (Reach.one ?_)
+    exact Step.leader (ProcStep.ignoreTerm _ rfl)
+
+end PlzVerif.Exec
